@@ -129,3 +129,166 @@ Proof.
   - subst rest. apply Hn. right. left. reflexivity.
   - inversion E; subst. inversion Hf; subst. discriminate.
 Qed.
+
+(* ================================================================ the whole of Selection::Group (round 7)
+   DataSelection::pvGroup = HashSorter::Sort(raws, hashFunc, equalFunc):  RadixSorter sorts the rows by hash code and calls
+   groupFunc(begin, count) on every maximal run of equal codes (pvSelectionSort: the prevIndex loop; pvRadixSort: singleCode,
+   the buckets at shift 0, recursively pvSort); HashSorter::pvSort's groupFunc is `if (count > 2) pvGroup(begin, count)`.
+   That RadixSorter's output is a permutation with non-decreasing codes is property C17 (C17_radix_sort_perm_sorted, same
+   repository head); here the theorem is stated for EVERY hash-sorted arrangement s of the selection l, so it holds for
+   whichever one the radix sort produced.  runs = the (begin, count) pairs passed to groupFunc. *)
+From Coq Require Import Sorted.
+
+Section HashGroup.
+Variable h : K -> Z.
+
+Fixpoint runs (l : list K) : list (list K) :=
+  match l with
+  | [] => []
+  | x :: t =>
+      match runs t with
+      | (y :: r) :: rs => if Z.eqb (h x) (h y) then (x :: y :: r) :: rs else [x] :: (y :: r) :: rs
+      | _ => [[x]]
+      end
+  end.
+
+Definition group_func (r : list K) : list K := if Nat.ltb 2 (length r) then pvgroup (length r) r else r.
+Definition hash_group (s : list K) : list K := concat (map group_func (runs s)).
+
+Definition hle (x y : K) : Prop := (h x <= h y)%Z.
+
+Fixpoint runs_ok (rs : list (list K)) : Prop :=
+  match rs with
+  | [] => True
+  | r :: rs' => r <> [] /\ (forall x y, In x r -> In y r -> h x = h y) /\
+                (forall x y, In x r -> In y (concat rs') -> (h x < h y)%Z) /\ runs_ok rs'
+  end.
+
+Lemma runs_spec s : StronglySorted hle s -> runs_ok (runs s) /\ concat (runs s) = s.
+Proof.
+  induction s as [|x t IH]; intros Hs; [split; [exact I|reflexivity]|].
+  apply StronglySorted_inv in Hs as [Hst Hx]. specialize (IH Hst). destruct IH as [Hok Hc].
+  cbn [runs]. destruct (runs t) as [|[|y r] rs] eqn:Er.
+  - simpl in Hc. subst t. split; [|reflexivity]. cbn. repeat split; auto; try discriminate.
+    + intros a b [<-|[]] [<-|[]]. reflexivity.
+    + intros a b _ [].
+  - exfalso. destruct Hok as [Hne _]. apply Hne. reflexivity.
+  - destruct Hok as (Hne & Hu & Hlt & Hok').
+    rewrite Forall_forall in Hx.
+    destruct (Z.eqb_spec (h x) (h y)) as [E|E].
+    + split; [|cbn [concat] in *; rewrite <- Hc; reflexivity]. cbn [runs_ok]. split; [discriminate|]. split; [|split; [|exact Hok']].
+      * intros a b [<-|Ha] [<-|Hb]; auto.
+        -- rewrite E. apply Hu; [left; reflexivity|exact Hb].
+        -- rewrite E. symmetry. apply Hu; [left; reflexivity|exact Ha].
+      * intros a b [<-|Ha] Hb; [rewrite E; apply Hlt; [left; reflexivity|exact Hb]|apply Hlt; assumption].
+    + split; [|cbn [concat] in *; rewrite <- Hc; reflexivity]. cbn [runs_ok]. split; [discriminate|]. split; [|split].
+      * intros a b [<-|[]] [<-|[]]. reflexivity.
+      * intros a b [<-|[]] Hb. cbn [concat] in Hb.
+        assert (Hy : (h x <= h y)%Z) by (apply Hx; rewrite <- Hc; cbn [concat]; left; reflexivity).
+        apply in_app_iff in Hb as [Hb|Hb].
+        -- rewrite (Hu b y Hb (or_introl eq_refl)). lia.
+        -- specialize (Hlt y b (or_introl eq_refl) Hb). lia.
+      * cbn [runs_ok]. repeat split; assumption.
+Qed.
+
+Lemma grp_app b : (forall f, grp f b) -> forall f a, grp f a -> (forall x, In x a -> ~ In x b) -> grp f (a ++ b).
+Proof.
+  intros Hb. induction f as [|f IH]; intros a Ha Hd; [exact I|].
+  destruct a as [|x t]; [exact (Hb (S f))|].
+  cbn [grp app] in *. destruct Ha as (run & rest & Et & Hf & Hn & Hg).
+  exists run, (rest ++ b). split; [rewrite Et, app_assoc; reflexivity|]. split; [exact Hf|]. split.
+  - intros Hin. apply in_app_iff in Hin as [Hin|Hin]; [exact (Hn Hin)|exact (Hd x (or_introl eq_refl) Hin)].
+  - apply IH; [exact Hg|]. intros z Hz. apply Hd. right. rewrite Et. apply in_or_app. right. exact Hz.
+Qed.
+
+Lemma grp_short r : length r <= 2 -> forall f, grp f r.
+Proof.
+  intros Hl f. destruct r as [|a [|b [|c r]]]; [apply grp_nil| | |simpl in Hl; lia].
+  - destruct f; [exact I|]. cbn. exists [], []. repeat split; auto. apply grp_nil.
+  - destruct f; [exact I|]. cbn [grp]. destruct (zlist_eqb a b) eqn:E.
+    + apply zlist_eqb_eq in E. subst b. exists [a], []. repeat split; auto. apply grp_nil.
+    + exists [], [b]. repeat split; auto.
+      * intros [H|[]]. subst b. rewrite zlist_eqb_refl in E. discriminate.
+      * destruct f; [exact I|]. cbn. exists [], []. repeat split; auto. apply grp_nil.
+Qed.
+
+Lemma group_func_spec r : Permutation (group_func r) r /\ forall f, grp f (group_func r).
+Proof.
+  unfold group_func. destruct (Nat.ltb_spec 2 (length r)) as [H|H].
+  - apply pvgroup_spec. lia.
+  - split; [reflexivity|apply grp_short; exact H].
+Qed.
+
+Lemma hash_group_runs rs : runs_ok rs ->
+  Permutation (concat (map group_func rs)) (concat rs) /\ forall f, grp f (concat (map group_func rs)).
+Proof.
+  induction rs as [|r rs IH]; intros Hok; [split; [reflexivity|intros; apply grp_nil]|].
+  destruct Hok as (Hne & Hu & Hlt & Hok'). destruct (IH Hok') as [P G]. destruct (group_func_spec r) as [Pr Gr].
+  cbn [map concat]. split; [apply Permutation_app; assumption|].
+  intros f. apply grp_app; [exact G|apply Gr|].
+  intros x Hx Hin. apply (Permutation_in _ Pr) in Hx. apply (Permutation_in _ P) in Hin.
+  specialize (Hlt x x Hx Hin). lia.
+Qed.
+
+(* Selection::Group: whatever hash-sorted arrangement s of the selection l the radix sort produced, grouping every run of
+   equal codes longer than 2 yields a permutation of l in which equal keys are adjacent *)
+Theorem hash_group_spec l s : Permutation l s -> StronglySorted hle s ->
+  Permutation (hash_group s) l /\ forall f, grp f (hash_group s).
+Proof.
+  intros Hp Hs. destruct (runs_spec s Hs) as [Hok Hc]. destruct (hash_group_runs (runs s) Hok) as [P G].
+  split; [|exact G]. unfold hash_group. rewrite Hc in P. etransitivity; [exact P|symmetry; exact Hp].
+Qed.
+
+(* the guard `count > 2` is tight: with `count > 3` a run A, B, A of three rows with one hash code stays ungrouped *)
+Definition group_func3 (r : list K) : list K := if Nat.ltb 3 (length r) then pvgroup (length r) r else r.
+End HashGroup.
+
+Theorem group_guard_refuted : exists h s, StronglySorted (hle h) s /\
+  ~ grp (S (length s)) (concat (map group_func3 (runs h s))).
+Proof.
+  exists (fun k => fold_right Z.add 0%Z k), [[1; 2]; [2; 1]; [1; 2]]%Z. split.
+  - repeat constructor; unfold hle; simpl; lia.
+  - cbn. intros (run & rest & E & Hf & Hn & _).
+    destruct run as [|r run]; simpl in E.
+    + subst rest. apply Hn. right. left. reflexivity.
+    + inversion E; subst. inversion Hf; subst. discriminate.
+Qed.
+
+(* ---------------------------------------------------------------- executable instance (extracted, run against real selections)
+   DataTraits::AccumulateHashCode is `hashCode += HashCoder<Item>()(item)`: for int columns the hash code of a key is the sum
+   of its (sign-extended) items modulo 2^64.  hsort = a stable sort by that code, standing for RadixSorter; group_runs = the
+   counts RadixSorter passes to groupFunc.  The harness computes the same counts from the REAL output of Selection::Group with
+   momo's own AccumulateHashCode, and checks that the real output's codes are non-decreasing (the hypothesis above). *)
+Definition key_hash (k : K) : Z := ((fold_right Z.add 0 k) mod 2 ^ 64)%Z.
+Fixpoint hins (x : K) (l : list K) : list K :=
+  match l with [] => [x] | y :: t => if Z.leb (key_hash x) (key_hash y) then x :: l else y :: hins x t end.
+Definition hsort (l : list K) : list K := fold_right hins [] l.
+Definition group_runs (l : list K) : list nat := map (@length K) (runs key_hash (hsort l)).
+Definition group_model (l : list K) : list K := hash_group key_hash (hsort l).
+
+Lemma hins_perm x l : Permutation (hins x l) (x :: l).
+Proof.
+  induction l as [|y t IH]; simpl; [reflexivity|]. destruct (Z.leb (key_hash x) (key_hash y)); [reflexivity|].
+  etransitivity; [apply perm_skip; exact IH|apply perm_swap].
+Qed.
+
+Lemma hins_sorted x l : StronglySorted (hle key_hash) l -> StronglySorted (hle key_hash) (hins x l).
+Proof.
+  induction l as [|y t IH]; intros Hs; simpl; [repeat constructor|].
+  apply StronglySorted_inv in Hs as [Hst Hy].
+  destruct (Z.leb_spec (key_hash x) (key_hash y)) as [Hle|Hgt].
+  - constructor; [constructor; assumption|]. constructor; [exact Hle|].
+    rewrite Forall_forall in *. intros z Hz. specialize (Hy z Hz). unfold hle in *. lia.
+  - constructor; [apply IH; exact Hst|]. rewrite Forall_forall in *. intros z Hz.
+    apply (Permutation_in _ (hins_perm x t)) in Hz. destruct Hz as [<-|Hz]; [unfold hle; lia|apply Hy; exact Hz].
+Qed.
+
+Lemma hsort_spec l : Permutation l (hsort l) /\ StronglySorted (hle key_hash) (hsort l).
+Proof.
+  induction l as [|x l [P S]]; simpl; [split; [reflexivity|constructor]|]. split.
+  - etransitivity; [apply perm_skip; exact P|symmetry; apply hins_perm].
+  - apply hins_sorted. exact S.
+Qed.
+
+Theorem group_model_spec l : Permutation (group_model l) l /\ forall f, grp f (group_model l).
+Proof. destruct (hsort_spec l) as [P S]. exact (hash_group_spec key_hash l (hsort l) P S). Qed.
